@@ -244,7 +244,7 @@ class Engine:
         _d = z3.Const('_d', smt.DS)
         self.base_axioms = hier.axioms() + [
             z3.ForAll([_d], z3.Implies(smt.IDX(_d), smt.LEN(_d)), patterns=[smt.IDX(_d)]),
-            z3.ForAll([_d], smt.N(_d) >= 0, patterns=[smt.N(_d)])]
+            z3.ForAll([_d], smt.N(_d) >= 0, patterns=[smt.N(_d)])] + self.copy_axioms()
         # A-PRIVATE: evaluating an example or a user callable never raises the library's
         # private control signal _ItemsNotDefined
         if '_ItemsNotDefined' in hier.bases:
@@ -1215,6 +1215,12 @@ class Engine:
             return self.seq_method(recv, name, args, st, node)
         if isinstance(recv, BuiltinV):
             return self.call_builtin(recv.name + '.' + name, args, kwargs, st, node)
+        if isinstance(recv, ClassV) and name == '__new__' and len(args) == 1 and isinstance(args[0], ClassV) \
+                and '%s:%s' % (self.mod, args[0].name) in self.src.classes:
+            oid = self.new_oid()
+            st.heap[oid] = {}
+            st.ghost['new_objects'] = st.ghost.get('new_objects', ()) + (oid,)
+            return [(st, InstV(oid, args[0].name))]
         if isinstance(recv, ClassV):
             return self.call_builtin('class:' + recv.name + '.' + name, args, kwargs, st, node)
         if isinstance(recv, SymDictV) and name == 'keys' and not args:
@@ -1272,22 +1278,34 @@ class Engine:
         return res
 
     def ds_copy(self, recv, view, args, kwargs, st):
-        """I-copy for an abstract dataset: a new reference with the same view."""
+        """I-copy for an abstract dataset: a new reference CP(d, c) with the same view (the
+        axioms of CP are global, see copy_axioms)."""
         if not isinstance(recv, DSRefV):
             raise Unsupported('copy of self by contract')
-        d2 = smt.fresh('copy', smt.DS)
-        d = recv.t
-        j = smt.fresh('cj', smt.Int)
-        st2 = st.fork(
-            d2 != d, smt.N(d2) == smt.N(d), smt.IDX(d2) == smt.IDX(d), smt.LEN(d2) == smt.LEN(d),
-            smt.KEYS(d2) == smt.KEYS(d), smt.ITEMS(d2) == smt.ITEMS(d), smt.ORD(d2) == smt.ORD(d),
-            z3.ForAll([j], z3.And(smt.RAISES(d2, j) == smt.RAISES(d, j), smt.VAL(d2, j) == smt.VAL(d, j),
-                                  smt.EXC(d2, j) == smt.EXC(d, j), smt.KEY(d2, j) == smt.KEY(d, j))),
-        )
-        k = z3.Const('ck', smt.Key)
-        st2.pc.append(z3.ForAll([k], smt.KPOS(d2, k) == smt.KPOS(d, k)))
-        st2.ghost['copies'] = st2.ghost.get('copies', ()) + ((d2, d, kwargs.get('freeze', args[0] if args else BoolV(False))),)
+        c = st.ghost.get('ncopies', 0)
+        freeze = kwargs.get('freeze', args[0] if args else BoolV(False))
+        if not isinstance(freeze, BoolV):
+            raise Unsupported('copy(freeze=%r)' % (freeze,))
+        d2 = smt.CP(recv.t, I(c))
+        st2 = st.fork()
+        st2.ghost['ncopies'] = c + 1
+        st2.ghost['copies'] = st2.ghost.get('copies', ()) + ((c, freeze.t),)
         return [(st2, DSRefV(d2))]
+
+    @staticmethod
+    def copy_axioms():
+        d = z3.Const('_cd', smt.DS)
+        c = z3.Int('_cc')
+        i = z3.Int('_ci')
+        k = z3.Const('_ck', smt.Key)
+        cp = smt.CP(d, c)
+        ax = [z3.ForAll([d, c], cp != d, patterns=[cp])]
+        for f in (smt.N, smt.IDX, smt.LEN, smt.KEYS, smt.ITEMS, smt.ORD, smt.IREF, smt.IEXC):
+            ax.append(z3.ForAll([d, c], f(cp) == f(d), patterns=[f(cp)]))
+        for f in (smt.RAISES, smt.VAL, smt.EXC, smt.KEY):
+            ax.append(z3.ForAll([d, c, i], f(cp, i) == f(d, i), patterns=[f(cp, i)]))
+        ax.append(z3.ForAll([d, c, k], smt.KPOS(cp, k) == smt.KPOS(d, k), patterns=[smt.KPOS(cp, k)]))
+        return ax
 
     # ---- builtins
     def call_builtin(self, name, args, kwargs, st, node):
@@ -1985,6 +2003,9 @@ class Engine:
                 s_ok.pc.append(z3.ForAll([jj], z3.Implies(z3.And(jj >= 0, jj < length),
                                                         z3.substitute(ncond, (j, jj)))))
             body_log = sb.ghost.get('log', ())[len(log0):]
+            for gk, gv in sb.ghost.items():
+                if gk != 'log':
+                    s_ok.ghost[gk] = gv      # ghost bookkeeping of the generic iteration (copy ids, ...)
             if body_log:
                 s_ok.ghost['log'] = log0 + (('forall', j, length, body_log),)
             if self.feasible(s_ok):
